@@ -72,14 +72,14 @@ Proof. intros [-> | ->]; reflexivity. Qed.
 (** ** never reported on a false condition (literals by value) *)
 Theorem div0_sound n : is_div0 n = true -> exists o l r, n = NExpr (EBinop o l r) /\ o = "/" /\ denotes_zero r = true.
 Proof.
-  destruct n as [e| |]; try discriminate. destruct e; try discriminate. cbn [is_div0].
+  destruct n as [e| | |]; try discriminate. destruct e; try discriminate. cbn [is_div0].
   intros H. apply andb_true_iff in H as [H Hl]. apply andb_true_iff in H as [Ho Hr].
   apply str_eqb_eq in Ho. exists op, e1, e2. repeat split; auto using value_is_zero_denotes.
 Qed.
 
 Theorem revloop_sound n : is_reverse_loop n = true -> cond_revloop n = true.
 Proof.
-  destruct n as [|s|]; try discriminate. destruct s; try discriminate. cbn [is_reverse_loop cond_revloop].
+  destruct n as [|s| |]; try discriminate. destruct s; try discriminate. cbn [is_reverse_loop cond_revloop].
   destruct start; try discriminate. destruct stop; try discriminate. destruct step; try discriminate.
   intros H. apply andb_true_iff in H as [Ho Hf]. rewrite Ho. cbn [andb].
   unfold f32_le_one in Hf. destruct (parse_decimal raw) as [pv|] eqn:Ep; [|discriminate].
@@ -101,7 +101,7 @@ Proof. intros [-> | ->]; reflexivity. Qed.
 
 Theorem nan_sound n : is_compare_nan n = true -> cond_nan n = true.
 Proof.
-  destruct n as [e| |]; try discriminate. destruct e; try discriminate. destruct e1; try discriminate.
+  destruct n as [e| | |]; try discriminate. destruct e; try discriminate. destruct e1; try discriminate.
   cbn [is_compare_nan cond_nan]. intros H. apply andb_true_iff in H as [Ho Hn].
   destruct e2; try discriminate. cbn [expression_is_nan] in Hn.
   apply andb_true_iff in Hn as [Hn Hr]. apply andb_true_iff in Hn as [Ho2 Hl].
@@ -190,3 +190,85 @@ Proof.
     - destruct p; [apply IH|]. destruct (Nat.eqb k 0); eexists; split; eauto. }
   destruct (H ps1 0%nat) as (r & -> & [-> | [m ->]]); reflexivity.
 Qed.
+
+(** ** the five table / condition / call lints *)
+
+(** mixed_table: reported exactly for constructors with both a positional and a keyed field, wherever they occur *)
+Theorem mixed_canonical chunk fs :
+  In (NTable fs) (nodes_block chunk) ->
+  existsb is_nokey (fields_list fs) = true -> existsb (fun f => negb (is_nokey f)) (fields_list fs) = true ->
+  (1 <= n_mixed (lint_counts chunk))%nat.
+Proof. intros Hin H1 H2. apply (count_in _ _ _ Hin). cbn. rewrite H1, H2. reflexivity. Qed.
+
+Theorem mixed_sound n : is_mixed n = true -> exists fs, n = NTable fs /\ existsb is_nokey (fields_list fs) = true /\
+  existsb (fun f => negb (is_nokey f)) (fields_list fs) = true.
+Proof. destruct n; try discriminate. cbn. intros H. apply andb_true_iff in H. exists fs. tauto. Qed.
+
+(** duplicate_keys: the key each field declares *)
+Definition field_key (f : field) (index : nat) : option key * nat :=
+  match f with
+  | FNameKey name _ => (Some (KString, t_name name), index)
+  | FExprKey ke _ => (expression_to_key ke, index)
+  | FNoKey _ => (Some (KNumber, nat_to_string (S index)), S index)
+  end.
+
+Fixpoint field_keys (fs : list field) (index : nat) : list key :=
+  match fs with
+  | [] => []
+  | f :: r => let '(k, i') := field_key f index in (match k with Some k' => [k'] | None => [] end) ++ field_keys r i'
+  end.
+
+Fixpoint no_dup_keys (ks declared : list key) : bool :=
+  match ks with
+  | [] => true
+  | k :: r => negb (existsb (key_eqb k) declared) && no_dup_keys r (k :: declared)
+  end.
+
+(** never reported when all keys differ (as kind + text) *)
+Theorem dupkeys_sound fs : forall declared index,
+  no_dup_keys (field_keys fs index) declared = true -> dup_count fs declared index = 0%nat.
+Proof.
+  induction fs as [|f r IH]; intros declared index H; [reflexivity|]. cbn [dup_count field_keys] in *.
+  change (match f with
+          | FNameKey name _ => (Some (KString, t_name name), index)
+          | FExprKey ke _ => (expression_to_key ke, index)
+          | FNoKey _ => (Some (KNumber, nat_to_string (S index)), S index)
+          end) with (field_key f index).
+  destruct (field_key f index) as [[k|] i']; cbn [app no_dup_keys] in H.
+  - apply andb_true_iff in H as [H1 H2]. apply negb_true_iff in H1. rewrite H1. apply IH. exact H2.
+  - apply IH. exact H.
+Qed.
+
+(** the canonical pattern `{ a = _, a = _ }`, anywhere *)
+Theorem dupkeys_canonical chunk a v1 v2 rest :
+  In (NTable (FsCons (FNameKey a v1) (FsCons (FNameKey a v2) rest))) (nodes_block chunk) ->
+  (1 <= n_dupkeys (lint_counts chunk))%nat.
+Proof.
+  intros Hin. unfold lint_counts. cbn [n_dupkeys]. induction (nodes_block chunk) as [|n r IH]; [contradiction|].
+  cbn [fold_right]. destruct Hin as [->|Hin]; [|specialize (IH Hin); lia].
+  cbn [dup_keys_count fields_list dup_count existsb]. unfold key_eqb at 1. cbn [fst snd].
+  replace (str_eqb (t_name a) (t_name a)) with true by (symmetry; apply str_eqb_eq; reflexivity). cbn [orb]. lia.
+Qed.
+
+Theorem paren_canonical chunk c b eis els : In (NStmt (SIf (EParen c) b eis els)) (nodes_block chunk) ->
+  (1 <= n_paren (lint_counts chunk))%nat.
+Proof.
+  intros Hin. unfold lint_counts. cbn [n_paren]. induction (nodes_block chunk) as [|n r IH]; [contradiction|].
+  cbn [fold_right]. destruct Hin as [->|Hin]; [cbn; lia|specialize (IH Hin); lia].
+Qed.
+
+Theorem tablecmp_canonical chunk o x fs : (o = "==" \/ o = "~=") ->
+  In (NExpr (EBinop o x (ETable fs))) (nodes_block chunk) -> (1 <= n_tablecmp (lint_counts chunk))%nat.
+Proof. intros [-> | ->] Hin; apply (count_in _ _ _ Hin); cbn; destruct (is_table x); reflexivity. Qed.
+
+Theorem tablecmp_sound n : is_table_comparison n = true ->
+  exists o l r, n = NExpr (EBinop o l r) /\ (is_table l = true \/ is_table r = true).
+Proof.
+  destruct n as [e| | |]; try discriminate. destruct e; try discriminate. cbn. intros H. apply andb_true_iff in H as [_ H].
+  apply orb_true_iff in H. eauto.
+Qed.
+
+Theorem typecheck_canonical chunk name x raw rest ss rng : t_name name = "type" ->
+  In (NCall (FCall (PName name) (SsCons (SfxCall (CAnon (AParens (EsCons (EBinop "==" x (EString raw)) rest)))) ss) rng)) (nodes_block chunk) ->
+  (1 <= n_typecheck (lint_counts chunk))%nat.
+Proof. intros Hn Hin. apply (count_in _ _ _ Hin). cbn. rewrite Hn. reflexivity. Qed.
